@@ -254,6 +254,7 @@ def run_unit(u: Unit, repo: Repo, timeout_ms=10000, seed=0) -> UnitResult:
     models_pkg.USED.clear()
     from . import core as _core
     _core.CROSSCHECK['seen'] = {}
+    _core.GAVE_UP.clear()
 
     def make_ctx(trace):
         return PathCtx(trace, timeout_ms=tmo, seed=seed)
